@@ -92,11 +92,13 @@ pub struct TokenSpec {
     pub enabled: bool,
     pub synthetic: bool,
     pub expected_provider: u8,
+    /// the token is present in the token map
+    pub in_map: bool,
 }
 
 impl Default for TokenSpec {
     fn default() -> Self {
-        Self { td: 8, precision: 4, heartbeat: 60, allow_adjust: false, ratio: 0, ts_adj: 0, policy: 0, enabled: true, synthetic: false, expected_provider: 0 }
+        Self { td: 8, precision: 4, heartbeat: 60, allow_adjust: false, ratio: 0, ts_adj: 0, policy: 0, enabled: true, synthetic: false, expected_provider: 0, in_map: true }
     }
 }
 
@@ -215,6 +217,7 @@ pub fn run(
     allow_closed: bool,
     n_feeds_given: usize,
     dup_first_token: bool,
+    start_cleared: bool,
 ) -> RunResult {
     g9rt::install();
     g9rt::set_clock(env.slot, env.now);
@@ -258,13 +261,18 @@ pub fn run(
     {
         let mut m = tm_loader.load_token_map_mut().expect("load_token_map_mut");
         for (k, (ts, _)) in tokens.iter().enumerate() {
+            if !ts.in_map {
+                continue;
+            }
             let tc = token_config(ts, g9rt::key(200 + k as u64));
             m.push_with(&token_keys[k], |dst| { *dst = tc; Ok(()) }, true).expect("push");
         }
     }
 
     let mut oracle: Box<Oracle> = Box::new(bytemuck::Zeroable::zeroed());
-    oracle.verif_clear_all_prices();
+    if start_cleared {
+        oracle.verif_clear_all_prices();
+    }
 
     let mut call_tokens = token_keys.clone();
     if dup_first_token && !call_tokens.is_empty() {
